@@ -1,52 +1,56 @@
-"""C07 context lifecycle: one per thread, teardown deregisters every module, auto-release, guards."""
+"""C07 context lifecycle: one context per thread, teardown deregisters every module, automatic release, guards."""
+import os
 from vf.l2 import l2_job, L2_STUBS
 
 META = {
     "functions": ["ctx.c: m_ctx_register, ctx_new, m_ctx_deregister, ctx_destroy_mods, ctx_dtor, m_ctx, loop_start, "
-                  "loop_stop (auto-release), m_ctx_dispatch, m_ctx_loop, m_ctx_quit, m_ctx_finalize, every M_CTX_ASSERT entry",
-                  "mod.c: m_mod_register (finalize gate), mod_deregister (auto-release branch), stop, optional_hook, "
-                  "module_dtor, every M_MOD_ASSERT entry point of mod.c / ps.c / src.c / evts.c",
-                  "structs (map iteration with removal), mem, poll: everything reached"],
-    "stubs": L2_STUBS,
-    "bounds": "0-3 modules per context, states IDLE/RUNNING/PAUSED/STOPPED reached through real calls, at most one loop "
-              "run before the teardown, 2 simulated threads",
-    "outside": "more modules than the bound, real thread interleavings (C14), allocation failure, FUSE build",
+                  "loop_stop (auto-release), m_ctx_dispatch, m_ctx_loop, m_ctx_quit, m_ctx_finalize, m_ctx_set_tick, every "
+                  "M_CTX_ASSERT entry point",
+                  "mod.c: m_mod_register (finalize gate, replace path), mod_deregister (auto-release branch), start, stop, "
+                  "optional_hook, module_dtor; every M_MOD_ASSERT entry point of mod.c / ps.c / src.c / evts.c",
+                  "structs/map.c (iteration with removal), mem, poll, ps (flush at stop): everything reached"],
+    "stubs": L2_STUBS + ["job C07.guard.nokey: harness/l2/c07_os_model.c = the same OS model included unchanged + validity "
+                         "tracking of the thread-specific-data key (key 0 belongs to another component of the process)"],
+    "bounds": "0-3 modules per context (3 modules only with duplicated names), states IDLE/RUNNING/PAUSED/STOPPED reached "
+              "through real calls, at most one loop run before a teardown, 2 simulated threads",
+    "outside": "more modules than the bound, real thread interleavings (C14), allocation failure, FUSE build, symbolic "
+               "context flag words on accepted registrations (flag bits are enumerated per job: a symbolic word makes the "
+               "PERSIST / NAME_DUP tests inside the library symbolic and the job does not finish)",
     "assumptions": [],
 }
 
-import os
 TMO = int(os.environ.get("C07_TIMEOUT", "900"))
+# the library allocates/releases only through the hook the harness installs: outstanding-allocation count, native-replayable
 HOOK = [(r"memhook\._free$", ["vf_free"]), (r"memhook\._calloc$", ["vf_calloc"]), (r"memhook\._malloc$", ["vf_malloc"])]
 SYM_T = ["errno left by callbacks (int)", "module user data identity", "quit code (uint8, LOOPED jobs)"]
-
-
-def teardown(nmod, st, persist, cndup=0, mndup=0, looped=0, drop=0, cb=0, udauto=0, nauto=0, ud2auto=0, leak=False):
-    st = (list(st) + [0, 0, 0])[:3]
-    name = "C07.teardown.n%d.s%s.p%d.cd%d.md%d.l%d.d%d.cb%d.f%d%d%d" % (nmod, "".join(str(x) for x in st[:nmod]) or "-", persist,
-                                                                     cndup, mndup, looped, drop, cb, udauto, nauto, ud2auto)
-    d = {"NMOD": nmod, "ST0": st[0], "ST1": st[1], "ST2": st[2], "PERSIST": persist, "CNDUP": cndup, "MNDUP": mndup,
-         "LOOPED": looped, "DROP": drop, "CB": cb, "UDAUTO": udauto, "NAUTO": nauto, "UD2AUTO": ud2auto}
-    return l2_job(name, "l2/c07_teardown.c", defines=d, symbolic=SYM_T, bounds=name, unwind=13, fp_extra=HOOK, leak=leak, timeout=TMO)
-
-
 SYM_A = ["errno left by callbacks (int)", "module user data identity"]
+SYM_G = {0: ["refused flag word (uint, all 32 bits)", "refused user data", "flag word used inside the handler", "quit code (uint8)",
+             "errno left by handlers (int)"],
+         1: ["quit code (uint8)", "errno left by handlers (int)"],
+         2: ["flag word of the refused module registrations (uint, all bits)", "quit code (uint8)", "errno left by handlers (int)"],
+         3: ["descriptor, source flags, timer period, signal, pid, task id, rate, burst, batch size, batch timeout, unstash count, "
+             "quit code, tick period, module flag word (all unconstrained)"],
+         4: ["refused flag word (uint)", "refused user data"],
+         5: ["quit code, tick period, module flag word (all unconstrained)"]}
 MODES = {0: "idle", 1: "instart", 2: "dispatch", 3: "loop", 4: "replace", 5: "instop", 6: "lateadd"}
+GNAMES = {0: "second", 1: "looping", 2: "finalize", 3: "nocontext", 4: "twothreads", 5: "nokey"}
+
+
+def teardown(nmod, st, persist, cndup=0, mndup=0, looped=0, drop=0, cb=0, udauto=0, nauto=0, ud2auto=0, tick=0, leak=False):
+    if nmod == 3:
+        mndup = 1      # measured: 3 modules with literal (not duplicated) names -> no verdict in 400 s (map back-shift memcpy of literal key pointers)
+    st = (list(st) + [0, 0, 0])[:3]
+    name = "C07.teardown.n%d.s%s.p%d.cd%d.md%d.l%d.d%d.cb%d.f%d%d%d.t%d" % (
+        nmod, "".join(str(x) for x in st[:nmod]) or "-", persist, cndup, mndup, looped, drop, cb, udauto, nauto, ud2auto, 1 if tick else 0)
+    d = {"NMOD": nmod, "ST0": st[0], "ST1": st[1], "ST2": st[2], "PERSIST": persist, "CNDUP": cndup, "MNDUP": mndup,
+         "LOOPED": looped, "DROP": drop, "CB": cb, "UDAUTO": udauto, "NAUTO": nauto, "UD2AUTO": ud2auto, "TICK": tick}
+    return l2_job(name, "l2/c07_teardown.c", defines=d, symbolic=SYM_T, bounds=name, unwind=13, fp_extra=HOOK, leak=leak, timeout=TMO)
 
 
 def autorel(mode, nmod, persist, keep=1, st=1, udauto=0, leak=False):
     name = "C07.autorel.%s.n%d.p%d.k%d.s%d.f%d" % (MODES[mode], nmod, persist, keep, st, udauto)
     d = {"MODE": mode, "NMOD": nmod, "PERSIST": persist, "KEEP": keep, "ST": st, "UDAUTO": udauto}
     return l2_job(name, "l2/c07_autorelease.c", defines=d, symbolic=SYM_A, bounds=name, unwind=13, fp_extra=HOOK, leak=leak, timeout=TMO)
-
-
-SYM_G = {0: ["refused flag word (uint, all 32 bits)", "refused user data", "flag word used inside the handler", "quit code", "errno left by handlers"],
-         1: ["quit code (uint8)", "errno left by handlers (int)"],
-         2: ["flag word of the refused module registration (uint, all bits)", "quit code", "errno left by handlers"],
-         3: ["descriptor, source flags, timer period, signal, pid, task id, rate, burst, batch size, batch timeout, unstash count, "
-             "quit code, tick period, module flag word (all unconstrained)"],
-         4: ["refused flag word (uint)", "refused user data"],
-         5: ["quit code, tick period, module flag word (all unconstrained)"]}
-GNAMES = {0: "second", 1: "looping", 2: "finalize", 3: "nocontext", 4: "twothreads", 5: "nokey"}
 
 
 def guard(g, bst=1, loop0=0):
@@ -62,31 +66,97 @@ def guard(g, bst=1, loop0=0):
 
 
 def jobs(tier):
-    js = []
     if tier == "quick":
-        T = [  # nmod, states, persist, kwargs
-            (0, (), 0, dict(udauto=1, nauto=1, ud2auto=1)), (0, (), 1, dict(cndup=1, looped=1)),
+        T = [  # nmod, states, persist, options
+            (0, (), 0, dict(udauto=1, nauto=1, ud2auto=1, leak=True)), (0, (), 1, dict(cndup=1, looped=1, tick=1000000)),
             (1, (1,), 0, dict()), (1, (0,), 1, dict(udauto=1)), (1, (2,), 0, dict(drop=1)),
-            (2, (1, 0), 1, dict()), (2, (2, 3), 0, dict(mndup=1)), (2, (1, 2), 0, dict(drop=1, cndup=1)),
-            (2, (1, 1), 0, dict(cb=1)), (2, (1, 2), 0, dict(cb=2)), (2, (0, 2), 1, dict(looped=1, nauto=1)),
-            (3, (1, 2, 3), 0, dict(looped=1, mndup=1, cndup=1)), (3, (0, 1, 2), 1, dict(udauto=1)),
+            (2, (1, 0), 1, dict()), (2, (1, 2), 0, dict(drop=1, cndup=1)), (2, (1, 1), 0, dict(cb=1)), (2, (1, 2), 0, dict(cb=2)),
+            (2, (0, 2), 1, dict(looped=1, nauto=1)), (3, (1, 2, 3), 0, dict(looped=1, cndup=1)),
         ]
-        A = [  # mode, nmod, persist, kwargs
-            (0, 1, 0, dict()), (0, 2, 1, dict(keep=0, st=2)), (0, 2, 0, dict(st=0, udauto=1)), (1, 1, 0, dict()), (1, 2, 1, dict(keep=0)),
-            (2, 1, 0, dict()), (2, 2, 0, dict(keep=0)), (2, 1, 1, dict()), (3, 1, 0, dict(keep=0, udauto=1)), (3, 2, 0, dict()),
-            (4, 1, 0, dict()), (4, 1, 0, dict(keep=0)), (4, 1, 1, dict(keep=0, st=2)), (5, 2, 0, dict()), (5, 2, 1, dict(st=0)),
-            (6, 1, 0, dict()),
+        A = [  # mode, nmod, persist, options
+            (0, 1, 0, dict(leak=True)), (0, 2, 1, dict(keep=0, st=2)), (1, 1, 0, dict()), (2, 1, 0, dict()), (2, 2, 0, dict(keep=0)),
+            (2, 1, 1, dict()), (3, 1, 0, dict(keep=0, udauto=1)), (4, 1, 0, dict()), (4, 1, 1, dict(keep=0, st=2)),
+            (5, 2, 0, dict()), (6, 1, 0, dict()),
         ]
         Gs = [(0, 1, 0), (1, 1, 0), (2, 1, 0), (3, 1, 0), (3, 2, 1), (4, 1, 0), (5, 1, 0)]
     else:
-        T, A, Gs = [], [], []
+        T, A = [], []
+        T += [(0, (), 0, dict(udauto=1, nauto=1, ud2auto=1, leak=True)), (0, (), 0, dict(cndup=1, tick=5)), (0, (), 1, dict(leak=True)),
+              (0, (), 1, dict(cndup=1, looped=1, tick=1000000)), (0, (), 1, dict(looped=1, udauto=1, nauto=1))]
+        k = 0
+        for s in range(4):                      # one module: every state x persist x dropped/retained, looped variants
+            for p in (0, 1):
+                for drop in (0, 1):
+                    k += 1
+                    T.append((1, (s,), p, dict(drop=drop, udauto=k % 2, cndup=(k // 2) % 2, mndup=(k // 3) % 2)))
+                if s != 1:
+                    T.append((1, (s,), p, dict(looped=1, drop=int(s == 3), tick=7 if p else 0)))
+        for s0 in range(4):                     # two modules: every state pair
+            for s1 in range(4):
+                k += 1
+                cnd = (k // 5) % 2
+                T.append((2, (s0, s1), k % 2, dict(drop=(k // 2) % 2, mndup=(k // 4) % 2, nauto=0 if cnd else (k // 3) % 2,
+                                                   cndup=cnd, ud2auto=k % 2)))
+        for pair in ((0, 2), (2, 3), (3, 0), (2, 2), (0, 0), (1, 3)):
+            k += 1
+            T.append((2, pair, k % 2, dict(looped=1, drop=(k // 2) % 2, tick=1000 if k % 3 == 0 else 0)))
+        for pair in ((1, 1), (1, 2), (0, 3), (2, 0)):
+            for p in (0, 1):
+                T.append((2, pair, p, dict(cb=1)))
+                T.append((2, pair, p, dict(cb=2, mndup=p)))
+        triples = [(0, 1, 2), (1, 2, 3), (3, 0, 1), (2, 2, 2), (1, 1, 1), (0, 0, 0), (3, 3, 1), (2, 0, 3), (1, 0, 1), (2, 1, 0), (0, 3, 2), (3, 2, 1)]
+        for i, t in enumerate(triples):
+            T.append((3, t, i % 2, dict(drop=(i // 2) % 2, looped=1 if i % 4 == 1 else 0, udauto=(i // 3) % 2, cndup=(i // 4) % 2)))
+        T += [(3, (1, 2, 0), 0, dict(cb=1)), (3, (2, 1, 1), 1, dict(cb=1)), (3, (1, 1, 2), 0, dict(cb=2)), (3, (0, 2, 1), 1, dict(cb=2))]
+        for nmod in (1, 2):
+            for p in (0, 1):
+                for st in range(4):
+                    A.append((0, nmod, p, dict(keep=(st + nmod + p) % 2, st=st, udauto=(st + p) % 2, leak=(nmod == 1 and st == 1))))
+                for keep in (0, 1):
+                    A.append((1, nmod, p, dict(keep=keep)))
+                    A.append((2, nmod, p, dict(keep=keep, udauto=keep)))
+                    A.append((3, nmod, p, dict(keep=keep)))
+                    A.append((6, nmod, p, dict(keep=keep)))
+        for p in (0, 1):
+            for keep in (0, 1):
+                for st in range(4):
+                    A.append((4, 1, p, dict(keep=keep, st=st)))
+                for st in (0, 1, 2):
+                    A.append((5, 2, p, dict(keep=keep, st=st)))
+        Gs = [(0, 1, 0), (1, 1, 0), (2, 1, 0), (4, 1, 0), (5, 1, 0)] + [(3, b, l) for b in range(4) for l in (0, 1)]
+    js, seen = [], set()
     for nmod, st, persist, kw in T:
-        js.append(teardown(nmod, st, persist, **kw))
+        j = teardown(nmod, st, persist, **kw)
+        if j.name not in seen:
+            seen.add(j.name)
+            js.append(j)
     for mode, nmod, persist, kw in A:
-        js.append(autorel(mode, nmod, persist, **kw))
+        j = autorel(mode, nmod, persist, **kw)
+        if j.name not in seen:
+            seen.add(j.name)
+            js.append(j)
     for g, bst, loop0 in Gs:
         js.append(guard(g, bst, loop0))
     return js
 
 
-MANIFEST = {"text": "tbd", "note": "tbd"}
+MANIFEST = {
+    "text": "Bounded model checking of the whole core on the OS model, three scenario families over the public API: "
+            "(teardown) 0-3 modules brought into every mix of IDLE/RUNNING/PAUSED/STOPPED by real calls, context flags and "
+            "name duplication per job, optionally one loop run before, user references retained or dropped, stop callbacks "
+            "that deregister another module or call m_ctx_deregister themselves, then m_ctx_deregister(): returns 0, every "
+            "retained module is ZOMBIE, stop callback ran exactly once for RUNNING/PAUSED ones, context calls fail with EPIPE, "
+            "a fresh context can be registered, allocator-hook count of outstanding library allocations is 0 after the user "
+            "references are dropped, auto-free name/user data released exactly once; (automatic release) last module "
+            "deregistered directly, from its start callback, from another module's stop callback, from inside handlers of a "
+            "dispatch/blocking loop, by replacement, or followed by a late registration: non-persistent context gone "
+            "immediately (idle) / when the loop returns (looping, and refuses m_ctx_deregister meanwhile), persistent one "
+            "survives until deregistered; (guards) second registration EEXIST with any flag word on idle/looping context and "
+            "from a handler and on two threads, finalize gate for any module flag word, the full menu of context and module "
+            "calls with unconstrained arguments from a thread without context (also before the thread-specific key exists) "
+            "returning an error and leaving module, context, allocations, descriptors and callback log unchanged",
+    "note": "call order, module count/states and every context flag bit are per-job constants (a symbolic flag word makes "
+            "PERSIST/NAME_DUP tests symbolic: no verdict); symbolic per job: errno left by callbacks, quit code, user data "
+            "identity, refused flag words and all arguments of refused calls; bounds: <= 3 modules, <= 1 loop run, 2 "
+            "simulated threads at call granularity",
+}
